@@ -8,7 +8,7 @@ import pipeline
 import semcheck
 
 PATHS = [("f.txt", "f.txt"), ("my file.txt", "my file.txt"), ("dir/g.txt", "dir/g.txt"), ("./f.txt", "f.txt"), ("a'b.txt", "a'b.txt"),
-         ("x;y.txt", "x;y.txt"), ("*.txt", "*.txt"), ("-n", "-n"), ("dir/../h.txt", "h.txt"), ("q\"uote.txt", "q\"uote.txt"),
+         ("x;y.txt", "x;y.txt"), ("*.txt", "*.txt"), ("-n", "-n"), ("-", "-"), ("--", "--"), ("dir/../h.txt", "h.txt"), ("q\"uote.txt", "q\"uote.txt"),
          # a path and the names a careless implementation could use next to it (round 7: C17-9, write through "<path>.tmp" and mv)
          ("f.txt.tmp", "f.txt.tmp"), ("f.txt~", "f.txt~"), ("f.txt.bak", "f.txt.bak")]
 
